@@ -215,7 +215,8 @@ class History:
         self.ds = Dataset(self.root)
 
     # -- sessions ----------------------------------------------------------
-    def _expand(self, runs: list, writer: int, base_seq: int = 0):
+    def _expand(self, runs: list, writer: int, base_seq: int = 0,
+                shared=None):
         """[[split_idx,n,meta_idx]] -> concrete runs + model records."""
         concrete, records = [], []
         seq = base_seq
@@ -241,7 +242,14 @@ class History:
                     "writer": writer,
                     "meta": meta_of(meta_idx),
                 }))
-            concrete.append([split, ids, meta_of(meta_idx), bad_at])
+            value = meta_of(meta_idx)
+            if shared is not None and value:
+                # the caller re-uses ONE dict object and updates it in place
+                # right before the run (see dsops.write_runs)
+                concrete.append([split, ids, dsops.SharedMeta(shared, value),
+                                 bad_at])
+            else:
+                concrete.append([split, ids, value, bad_at])
         return concrete, records
 
     def apply(self, op: dict) -> dict:
@@ -256,7 +264,8 @@ class History:
             subdir, relation = self.resolve_dir(op["dir"])
             info["dir"] = subdir
             info["relation"] = relation
-            concrete, records = self._expand(op["runs"], 0)
+            concrete, records = self._expand(
+                op["runs"], 0, shared={} if op.get("shared_meta") else None)
             try:
                 dsops.filler_session(self.ds, self.desc, concrete, subdir)
             except BaseException as exc:  # pylint: disable=broad-except
